@@ -70,3 +70,43 @@ def mkLst (k : Kind) (c : Chan) : Lst :=
       (fun _ _ _ _ _ _ _ _ => anomalyLabel key)
 
 end BeyondVerif.Listen
+
+/-! ### `TopocentricFrame.visibility` (beyond/frames/stations.py) -/
+namespace BeyondVerif.Listen
+open BeyondVerif.Generated.ListenSrc
+
+/-- name of the listener class in the generated tables -/
+def Kind.pre : Kind → String
+  | .node => "node" | .apside => "apside" | .signal => "signal" | .mask => "mask" | .max => "max"
+  | .radvel _ => "radvel" | .light _ => "light" | .terminator => "terminator" | .anomaly _ => "anomaly"
+
+def kindOfPre? : String → Option Kind
+  | "signal" => some .signal | "mask" => some .mask | "max" => some .max | "node" => some .node
+  | "apside" => some .apside | "terminator" => some .terminator | _ => none
+
+/-- the event class of a listener kind, followed by its base classes -/
+def eventOf (k : Kind) : List String := (eventAncestors.lookup k.pre).getD []
+
+/-- `stations_listeners(sta)` as listener kinds -/
+def stationKinds (hasMask : Bool) : List Kind :=
+  (stationListeners ++ (if hasMask then stationListenersIfMask else [])).filterMap kindOfPre?
+
+/-- `isinstance(event_of_kind_k, event_classes)` with `event_classes = tuple(l.event for l in sta_list)` -/
+def passes (sta : List Kind) (k : Kind) : Bool :=
+  sta.any (fun sk => match (eventOf sk).head? with | some c => (eventOf k).contains c | none => false)
+
+/-- `TopocentricFrame.visibility(orb, listeners=…, events=…, dates=samples)`.
+`user`: the caller's listeners (`listeners=` followed by those given through `events=`), `sta`: the components of the
+state in the station's own frame, `events`: truth value of the `events` argument.
+Every point whose elevation `sta.phi` is negative is dropped unless its `event` is an instance of an event class of the
+STATION's own listeners. -/
+def visibility (user : List (Kind × Chan)) (sta : Chan) (hasMask events : Bool) (st : List (Option Int))
+    (samples : List Int) : List Item :=
+  let sk := if events then stationKinds hasMask else []
+  let all := user ++ sk.map (fun k => (k, sta))
+  (iter (all.map (fun kc => mkLst kc.1 kc.2)) st samples).filter (fun it =>
+    !(decide (sta.phi it.t < 0) && !(match it.ev with
+        | some (i, _) => (match all[i]? with | some kc => passes sk kc.1 | none => false)
+        | none => false)))
+
+end BeyondVerif.Listen
